@@ -719,7 +719,8 @@ def _interp_step(case, cog, kind, replica, mech, p_model):
         obs = np.asarray(cog.calc_ee_at_radius(x), float)
         m = dict(mech, op='calc_ee_at_radius', at=kind[3:])
         if kind == 'ee_nodes':
-            case.close(obs, p, 'ee_at_sampled_radii_is_profile', rtol=1e-12, mech=m)
+            case.close(obs, p, 'ee_at_sampled_radii_is_profile', rtol=1e-12, atol=1e-13 * float(np.max(np.abs(p))),
+                       mech=m)
         case.close(obs, np.asarray(_pchip(r, p)(x), float), 'ee_vs_interpolant_of_current_profile', rtol=1e-12,
                    atol=1e-15 * float(np.max(np.abs(p))), mech=m)
         if p_model is not None and np.all(np.isfinite(p_model)):
@@ -840,7 +841,10 @@ def _roundtrip(case, cog, mech):
     n = p.size
     m = dict(mech, op='calc_radius_at_ee')
     ee = np.asarray(cog.calc_ee_at_radius(r), float)
-    case.close(ee, p, 'ee_at_sampled_radii_is_profile', rtol=1e-12, mech=dict(mech, op='calc_ee_at_radius'))
+    # a node value much smaller than its neighbours (curves crossing zero) carries the evaluation rounding of the
+    # neighbouring values: eps * max|p| (measured 2.9e-13 relative to such a node, ~1e-15 relative to max|p|)
+    case.close(ee, p, 'ee_at_sampled_radii_is_profile', rtol=1e-12, atol=1e-13 * float(np.max(np.abs(p))),
+               mech=dict(mech, op='calc_ee_at_radius'))
     if k < 2:
         try:
             cog.calc_radius_at_ee(p[:1])
